@@ -8,7 +8,7 @@ use crate::subject::problems::TagP;
 use better_any::{Tid, TidAble};
 use mahf::state::registry::Entry;
 use mahf::{CustomState, State, StateError, StateRegistry};
-use serde_json::Value;
+use serde_json::{json, Value};
 use std::collections::BTreeMap;
 
 macro_rules! cell_type {
@@ -107,6 +107,8 @@ pub enum Op {
     WithInner(u8, u8),
     RequireT(u8),
     ParentMutWrite(u8, u8),
+    /// insert into the scope directly below the top through parent_mut() (also a type no outer scope held)
+    ParentMutInsert(u8, u8),
     MultiPanicking(u8, u8, u8),
     EntryOrInsertWrite(u8, u8, u8),
     FindMutInsert(u8, u8),
@@ -127,7 +129,7 @@ impl Op {
             | EntryOrInsertWith(t, _) | EntryOrDefault(t) | EntryAndModify(t) | EntryAndModifyValue(t)
             | EntryAndModifyOrInsert(t, _) | EntryOccGet(t) | EntryOccGetMutWrite(t, _)
             | EntryOccIntoMutWrite(t, _) | EntryOccInsert(t, _) | EntryOccRemove(t) | EntryVacInsert(t, _)
-            | WithInner(t, _) | RequireT(t) | Multi(t, _, _) | ParentMutWrite(t, _) | MultiPanicking(t, _, _)
+            | WithInner(t, _) | RequireT(t) | Multi(t, _, _) | ParentMutWrite(t, _) | ParentMutInsert(t, _) | MultiPanicking(t, _, _)
             | EntryOrInsertWrite(t, _, _) | FindMutInsert(t, _) => Some(*t),
             _ => None,
         }
@@ -320,6 +322,13 @@ impl Model {
                 } else {
                     R::Missing
                 }
+            }
+            ParentMutInsert(t, v) => {
+                let n = self.scopes.len();
+                if n < 2 {
+                    return R::Bool(false);
+                }
+                R::Opt(self.scopes[n - 2].insert(t, v))
             }
             ParentMutWrite(t, v) => {
                 // through parent_mut(): the innermost scope *below the top* holding T
@@ -572,6 +581,10 @@ fn apply_t<T: Cell>(st: &mut St, op: &Op) -> R {
             Ok(()) => R::Unit,
             Err(e) => err_class(&e),
         },
+        ParentMutInsert(_, v) => match st.parent_mut() {
+            None => R::Bool(false),
+            Some(p) => R::Opt(p.insert(T::from(v)).map(|old| *old)),
+        },
         ParentMutWrite(_, v) => match st.parent_mut() {
             None => R::Bool(false),
             Some(p) => match p.get_mut::<T>() {
@@ -696,6 +709,9 @@ pub fn all_ops(ntypes: u8, depth: usize, core_only: bool) -> Vec<Op> {
         v.push(TryGetValue(t));
         v.push(ContainsAtTop(t));
         if core_only {
+            // writes that reach an outer scope behind the top scope's back belong to the core: anything the
+            // top scope caches about the scopes below it is hidden state
+            v.push(ParentMutInsert(t, 1));
             continue;
         }
         v.push(Take(t));
@@ -729,6 +745,7 @@ pub fn all_ops(ntypes: u8, depth: usize, core_only: bool) -> Vec<Op> {
         v.push(WithInner(t, 1));
         v.push(RequireT(t));
         v.push(ParentMutWrite(t, 2));
+        v.push(ParentMutInsert(t, 1));
         v.push(EntryOrInsertWrite(t, 0, 2));
         v.push(FindMutInsert(t, 1));
         for u in 0..ntypes {
@@ -811,9 +828,74 @@ impl System for Reg {
     }
 }
 
+/// Scope stacks far deeper than the BFS bound: type A held only `hold` scopes above the bottom of a stack
+/// of `depth` scopes (every other scope holds a B of its own), looked up / written / removed from the top.
+fn check_deep(depth: usize, hold: usize) -> Option<(String, String)> {
+    let r = catch(|| -> Option<String> {
+        let mut reg = StateRegistry::new();
+        for d in 0..depth {
+            if d > 0 {
+                reg = reg.into_child();
+            }
+            reg.insert(B((d % 3) as u8));
+            if d == hold {
+                reg.insert(A(1));
+            }
+        }
+        if !reg.contains::<A>() {
+            return Some("contains::<A>() is false".into());
+        }
+        if reg.contains_at_top::<A>() != (hold + 1 == depth) {
+            return Some("contains_at_top::<A>() is wrong".into());
+        }
+        match reg.try_get_value::<A>() {
+            Ok(1) => {}
+            other => return Some(format!("try_get_value::<A>() = {:?}", other.map_err(|e| e.to_string()))),
+        }
+        if reg.set_value::<A>(2) != Some(1) {
+            return Some("set_value::<A>(2) did not return the old value".into());
+        }
+        match reg.entry::<A>() {
+            Entry::Occupied(o) => {
+                if **o.get() != 2 {
+                    return Some("entry(): occupied, but not with the value just written".into());
+                }
+            }
+            Entry::Vacant(_) => return Some("entry::<A>() is vacant".into()),
+        }
+        match reg.get_mut::<A>() {
+            Some(a) => **a = 0,
+            None => return Some("get_mut::<A>() is None".into()),
+        }
+        if reg.try_borrow::<A>().map(|a| **a).ok() != Some(0) {
+            return Some("try_borrow::<A>() does not show the value written through get_mut".into());
+        }
+        match reg.remove::<A>() {
+            Ok(a) if *a == 0 => {}
+            other => return Some(format!("remove::<A>() = {:?}", other.map(|a| *a).map_err(|e| e.to_string()))),
+        }
+        if reg.contains::<A>() {
+            return Some("A is still present after remove".into());
+        }
+        // B is shadowed in every scope: the top one wins
+        if reg.try_get_value::<B>().ok() != Some(((depth - 1) % 3) as u8) {
+            return Some("try_get_value::<B>() is not the top scope's value".into());
+        }
+        None
+    });
+    let ctx = |w: String| format!("{} scopes, A inserted only in scope {} (0 = outermost), everything asked at the top: {}", depth, hold, w);
+    let class = if depth - 1 - hold >= 8 { "far-below" } else { "near" };
+    match r {
+        Err(p) => Some((format!("C01 deep-scopes holder={} panic", class), ctx(format!("panicked: {}", p)))),
+        Ok(Some(w)) => Some((format!("C01 deep-scopes holder={} lookup", class), ctx(w))),
+        Ok(None) => None,
+    }
+}
+
 pub fn run(rep: &mut Report) {
     rep.alpha("per type T in {A,B,C} (Deref<Target=u8>, values mod 3): insert, remove, take, contains, contains_at_top, find, find_mut, try_borrow/borrow, try_borrow_mut/borrow_mut + write, try_get_value/get_value, try_borrow_value(_mut)/borrow_value(_mut) + write, set_value, get_mut + write, entry().or_insert/or_insert_with/or_default/and_modify/and_modify_value, Entry::Occupied get/get_mut/into_mut/insert/remove, Entry::Vacant insert, try_get_multiple_mut::<(T,U)>, requirements().require, with_inner_state(Ok body)");
-    rep.alpha("parent, parent_mut, into_child (push scope), into_parent (pop scope, both halves inspected)");
+    rep.alpha("scope stacks of 1..300 (thorough: 1025) scopes with a type held in one scope only, every lookup flavour from the top");
+    rep.alpha("parent, parent_mut (write, insert), into_child (push scope), into_parent (pop scope, both halves inspected)");
     rep.assume("more than 3 types / 3 values / 3 scopes behave uniformly (the registry is a HashMap keyed by TypeId per scope and never inspects values)");
     rep.assume("no guard is alive between operations in this check (dynamic borrows are C02)");
     let ntypes = rep.tier.pick(2u8, 3u8);
@@ -827,6 +909,28 @@ pub fn run(rep: &mut Report) {
     p.require(p.outcomes.is_empty() || !p.violations.is_empty(), "outcome bookkeeping");
     p.outcome("agree");
     p.outcome(format!("states:{}", p.states));
+    rep.push(p);
+
+    let mut p = Part::new("registry.deep-scopes");
+    let depths: Vec<usize> = if rep.tier == Tier::Thorough { vec![1, 2, 3, 9, 33, 63, 64, 65, 66, 67, 100, 129, 300, 1025] } else { vec![1, 2, 3, 9, 33, 63, 64, 65, 66, 67, 100, 129, 300] };
+    for &depth in &depths {
+        let mut holds = vec![0usize, depth / 2, depth - 1];
+        if depth > 2 {
+            holds.push(1);
+            holds.push(depth - 2);
+        }
+        holds.sort();
+        holds.dedup();
+        for hold in holds {
+            p.transitions += 10;
+            p.traces += 1;
+            p.states += 1;
+            p.outcome(if depth - 1 - hold >= 8 { "far-below" } else { "near" });
+            if let Some((sg, d)) = check_deep(depth, hold) {
+                p.violate(sg, d, json!({"deep": [depth, hold]}));
+            }
+        }
+    }
     rep.push(p);
 
     // thorough: same search on one thread must give the same state count (deterministic model)
@@ -901,6 +1005,7 @@ fn parse_op(v: &Value) -> Result<Op, String> {
         "WithInner" => WithInner(a(0), a(1)),
         "RequireT" => RequireT(a(0)),
         "ParentMutWrite" => ParentMutWrite(a(0), a(1)),
+        "ParentMutInsert" => ParentMutInsert(a(0), a(1)),
         "MultiPanicking" => MultiPanicking(a(0), a(1), a(2)),
         "EntryOrInsertWrite" => EntryOrInsertWrite(a(0), a(1), a(2)),
         "FindMutInsert" => FindMutInsert(a(0), a(1)),
@@ -909,6 +1014,9 @@ fn parse_op(v: &Value) -> Result<Op, String> {
 }
 
 pub fn replay(case: &Value) -> Result<Vec<(String, String)>, String> {
+    if let Some(d) = case["deep"].as_array() {
+        return Ok(check_deep(d[0].as_u64().unwrap_or(1) as usize, d[1].as_u64().unwrap_or(0) as usize).into_iter().collect());
+    }
     let h = case["history"].as_array().ok_or("no history")?;
     let ops: Vec<Op> = h.iter().map(parse_op).collect::<Result<_, _>>()?;
     if ops.is_empty() {
